@@ -1090,6 +1090,8 @@ impl TransactionalMemory {
         if two_phase {
             self.storage.flush()?;
         }
+        #[cfg(redb_verif)]
+        crate::verif::pause("mem.commit.after_first_flush");
 
         // Make our new commit the primary, and record whether it was a 2-phase commit.
         // These two bits need to be written atomically
@@ -1099,6 +1101,8 @@ impl TransactionalMemory {
         // Write the new header to disk
         self.write_header(&header)?;
         self.storage.flush()?;
+        #[cfg(redb_verif)]
+        crate::verif::pause("mem.commit.after_final_flush");
 
         if shrunk {
             self.storage.resize(header.layout().len())?;
@@ -1115,6 +1119,8 @@ impl TransactionalMemory {
         state.header = header;
         state.read_from_secondary = false;
         drop(state);
+        #[cfg(redb_verif)]
+        crate::verif::pause("mem.commit.after_publish");
 
         Ok(())
     }
